@@ -293,6 +293,14 @@ def _quick_cases(seed):
         for rel, size in FCR_UNITS:
             for r in RADII:
                 yield from emit(_fcr(g, size, rel, r, [], seed), MIXED6)
+    # the flag relative_units given as another truthy / falsy value than the bool singletons (an int, a numpy bool as
+    # returned by a comparison)
+    for g in FCR_GRIDS_Q[:2]:
+        for rel, size in FCR_UNITS:
+            for form in ('int', 'npbool'):
+                for r in RADII:
+                    for c_ in emit(_fcr(g, size, rel, r, [], seed), MIXED6[:2]):
+                        yield dict(c_, relform=form)
     # --- explicit kernels: complete 2-D mode lattices
     yield {'__level__': 'FCW-2d-full'}
     for g, ks, kn, form in [((3, 2, 0), (3, 3, 1), 'asymn', '2d'), ((2, 2, 0), (5, 3, 1), 'signed', '3d'),
@@ -509,7 +517,8 @@ def exec_fc(case):
     else:
         w3 = None
         kdesc = f"r{case['radius']}{'rel' if case['rel'] else 'abs'}"
-        build = lambda modes, o: build_fc(pym, dom, n, modes, radius=case['radius'], rel=case['rel'], ovr=o)  # noqa: E731
+        relarg = {'bool': bool, 'int': int, 'npbool': np.bool_}[case.get('relform', 'bool')](case['rel'])
+        build = lambda modes, o: build_fc(pym, dom, n, modes, radius=case['radius'], rel=relarg, ovr=o)  # noqa: E731
 
     def narrowed(modes):
         c = dict(case)
